@@ -404,6 +404,14 @@ def pattern_program(r):
         "tails": ([], [([S("_"), [S("a"), DOT, S("b")], S("...")], q([S("b"), S("...")]))]),
         "tails2": ([], [([S("_"), [[S("k"), DOT, S("v")], S("...")], S("...")], q([[S("v"), S("...")], S("...")]))]),
         "heads2": ([], [([S("_"), [[S("k"), DOT, S("v")], S("...")], S("...")], q([[S("k"), S("...")], S("...")]))]),
+        # a depth-2 variable used twice in one step of the outer ellipsis (once under its own ellipsis inside a list
+        # sub-template, once more afterwards)
+        "twice": ([], [([S("_"), [S("a"), S("b"), S("...")], S("...")], q([[[S("a"), S("b")], S("..."), [S("b"), S("...")]], S("...")]))]),
+        "twice2": ([], [([S("_"), [S("a"), S("b"), S("...")], S("...")], q([[[S("b"), S("b")], S("..."), S("a"), S("b"), S("...")], S("...")]))]),
+        # a nested proper-list pattern listed before the dotted one: a dotted use must take the second rule
+        "pairs": ([], [([S("_"), [S("a"), S("b")]], q([S("proper"), S("a"), S("b")])), ([S("_"), [S("a"), DOT, S("b")]], q([S("dotted"), S("a"), S("b")]))]),
+        # nested proper sub-pattern under an ellipsis: a use with a dotted element matches no rule
+        "pairs-each": ([], [([S("_"), [S("k"), S("v")], S("...")], q([[S("k"), DOT, S("v")], S("...")]))]),
         "three": ([], [([S("_"), [[S("a"), S("b"), S("...")], S("...")], S("...")], q([[[S("b"), S("..."), S("a")], S("...")], S("...")]))]),
         "split": (["=>"], [([S("_"), S("x"), S("..."), S("=>"), S("y"), S("...")], q([[S("x"), S("...")], [S("y"), S("...")]])),
                            ([S("_"), S("x"), S("...")], q([S("none"), S("x"), S("...")]))]),
@@ -422,6 +430,13 @@ def pattern_program(r):
         elif name == "tails":
             args = [[datum(r, 0), DOT, datum(r, 1)] if r.random() < 0.6 else [datum(r, 0)] + [datum(r, 0) for _ in range(r.randint(0, 2))]
                     for _ in range(r.choice([0, 0, 1, 2, 3]))]
+        elif name in ("twice", "twice2"):
+            args = [[datum(r, 0)] + [datum(r, 1) for _ in range(r.choice([0, 1, 2, 3]))] for _ in range(r.randint(1, 4))]
+        elif name == "pairs":
+            args = [r.choice([[datum(r, 0), datum(r, 1)], [datum(r, 0), DOT, datum(r, 0)], [datum(r, 0), DOT, [datum(r, 0), datum(r, 0)]],
+                              [datum(r, 0), datum(r, 0), datum(r, 0)]])]
+        elif name == "pairs-each":
+            args = [[datum(r, 0), datum(r, 1)] if r.random() < 0.8 else [datum(r, 0), DOT, datum(r, 0)] for _ in range(r.randint(0, 3))]
         elif name in ("flat", "flat2", "dots"):
             args = [[datum(r, 1) for _ in range(r.randint(0 if name != "dots" else 1, 4))] for _ in range(r.randint(0, 3))]
             if name == "dots" and r.random() < 0.4 and args:
